@@ -895,3 +895,16 @@ Proof.
     destruct (step_rfind_cases P a) as [[Q HQ]|He]; [|exact He].
     exfalso. exact (best_chain_none _ _ P _ E i a Q Hin HQ).
 Qed.
+
+(* ------------------------------------------------------------------ examples *)
+
+(** the earliest START wins, not the longest remainder: "abc" | "b" on "abc" *)
+Lemma find_not_longest_remainder :
+  let P := Parser.parser_new [97; 98; 99] in
+  find_macro AtStart [[[97; 98; 99]]; [[98]]] (abs P) = (Some 0%nat, mkP [] 3 FromStart) /\
+  Parser.step P (Parser.OFindSkip [98]) =
+    Parser.POk Parser.VNone (Parser.mk_parser Parser.FromStart false 2 [99]).
+Proof. split; vm_compute; reflexivity. Qed.
+
+Lemma fits_new s : zlen s < 4294967296 -> fits (Parser.parser_new s).
+Proof. intro H. unfold fits. cbn. lia. Qed.
